@@ -15,6 +15,7 @@ for l in open('/verif/properties.jsonl'):
             prop += "Files: " + ", ".join(p['anchors']['files']) + "\n"
             prop += "Observed at: " + "; ".join(p['anchors']['observe_at']) + "\n"
 t = open(os.environ.get("MUT_TEMPLATE", "/verif/seeded/PROMPT_TEMPLATE.txt")).read()
+t = t.replace('__SEEDNUM__', str(int(pid[1:]) * 7 + 60))
 t = t.replace('__WT__', f'/tmp/wt_{pid}').replace('__PROP__', prop).replace('__PID__', pid).replace('__N__', n)
 open(f'/tmp/mut_prompt_{pid}.txt', 'w').write(t)
 print(f'/tmp/mut_prompt_{pid}.txt')
